@@ -20,15 +20,15 @@ func init() {
 		Assumptions: []string{"grammar slots: for [init; cond; post], if [init; cond], switch [tag] { case exprs: }", "well-typed scripts supply matching value/target counts"},
 		Quick: []ruleDef{
 			{"PAR-ROLE", 10, ruleParRole},
-			{"HND-LOCALBASE", 60, ruleHndLocalBase},
-			{"FRM-ADDR", 10, ruleFrmAddr},
+			{"HND-LOCALBASE", 156, ruleHndLocalBase},
+			{"FRM-ADDR", 23, ruleFrmAddr},
 			{"FRM-SLOTS", 2, ruleFrmSlots},
 			{"FRM-PAIR", 6, ruleFrmPair},
-			{"HND-FIELDS", 60, ruleHndFields},
+			{"HND-FIELDS", 65, ruleHndFields},
 			{"PAR-RESIZE", 5, ruleParResize},
-			{"INS-PATCH", 3, ruleInsPatch},
+			{"INS-PATCH", 10, ruleInsPatch},
 			{"PAR-GLOBALIDX", 3, ruleParGlobalIdx},
-			{"LAY-DEPTH", 40, ruleLayDepth},
+			{"LAY-DEPTH", 87, ruleLayDepth},
 		},
 	})
 	register(&propDef{
@@ -40,12 +40,12 @@ func init() {
 			{"FRM-CHECKS", 3, ruleFrmChecks},
 			{"FRM-VARIADIC", 4, ruleFrmVariadic},
 			{"LAY-FUNC", 8, ruleLayFunc},
-			{"FRM-METHOD", 3, ruleFrmMethod},
-			{"FRM-REDEFINE", 3, ruleFrmRedefine},
+			{"FRM-METHOD", 4, ruleFrmMethod},
+			{"FRM-REDEFINE", 4, ruleFrmRedefine},
 			{"FRM-PARAMSLOT", 1, ruleFrmParamSlot},
 			{"LAY-EVALORDER", 1, ruleLayEvalOrder},
 			{"REP-TYPEDSTORE", 9, ruleRepTypedStore},
-			{"JOINSPLIT", 100, ruleJoinSplit},
+			{"JOINSPLIT", 115, ruleJoinSplit},
 		},
 	})
 }
